@@ -1368,6 +1368,10 @@ func (f *Frame) checkAnchors(c *cursor, b *ssa.BasicBlock, idx int, in ssa.Instr
 				f.siteStates = map[string]*State{}
 			}
 			f.siteStates[s.Name] = c.st.clone()
+			if f.siteLookups == nil {
+				f.siteLookups = map[string]func(string) (Term, types.Type, bool){}
+			}
+			f.siteLookups[s.Name] = f.resolverAtPoint(b, idx, nil, c.st.clone())
 			if call, ok := in.(*ssa.Call); ok {
 				if f.siteArgs == nil {
 					f.siteArgs = map[string]sval{}
